@@ -406,6 +406,7 @@ static GM g_mul(const GM &a, const GM &b)
     return t;
 }
 
+static bool go(const std::string &phase);
 static void timed_run(CaseSet &cs)
 {
     double t = now();
@@ -434,28 +435,42 @@ int main(int argc, char **argv)
         shapesA.push_back({2, 6});
     }
     std::map<std::pair<int, int>, bool> closure_clean;
-    for (auto sh : shapesA) {
-        if (past_deadline())
-            break;
-        int n = sh.r * sh.c;
-        CaseSet cs;
-        cs.name = "A:set-closure-" + std::to_string(sh.r) + "x" + std::to_string(sh.c);
-        cs.n = ipow(3, n);
-        cs.counter_names = CN;
-        auto model_of = [sh, n](long long s) {
+    {
+        std::vector<long long> abase{0};
+        for (auto sh : shapesA)
+            abase.push_back(abase.back() + ipow(3, sh.r * sh.c));
+        auto locate = [shapesA, abase](long long s, long long &local) {
+            size_t k = 0;
+            while (s >= abase[k + 1])
+                k++;
+            local = s - abase[k];
+            return shapesA[k];
+        };
+        auto model_of = [locate](long long s) {
+            long long l;
+            Shape sh = locate(s, l);
+            int n = sh.r * sh.c;
             IModel m;
             m.r = sh.r;
             m.c = sh.c;
             m.v.resize(n);
             for (int q = n - 1; q >= 0; q--) {
-                int d = s % 3;
-                s /= 3;
+                int d = l % 3;
+                l /= 3;
                 m.v[q] = d == 0 ? ABSENT : d;
             }
             return m;
         };
-        cs.desc = [=](long long s) { return "every set(i,j,v) from the " + std::to_string(sh.r) + "x" + std::to_string(sh.c) + " state " + istr(model_of(s)); };
-        cs.crash_sig = [=](long long, const std::string &oc) { return "set:" + oc; };
+        CaseSet cs;
+        cs.name = "A:set-closure";
+        cs.n = abase.back();
+        cs.counter_names = CN;
+        cs.hang_s = 120;
+        cs.desc = [=](long long s) {
+            IModel m = model_of(s);
+            return "every set(i,j,v) from the " + std::to_string(m.r) + "x" + std::to_string(m.c) + " state " + istr(m);
+        };
+        cs.crash_sig = [=](long long, const std::string &oc) { return "set:" + crash_class(oc); };
         cs.body = [=](long long s, Ctx &c) {
             IModel m = model_of(s);
             CSRMatrix S = build_from_model(m);
@@ -467,22 +482,31 @@ int main(int argc, char **argv)
             int nnz = 0;
             for (int v : m.v)
                 nnz += v != ABSENT;
-            c.outcome(std::to_string(sh.r) + "x" + std::to_string(sh.c) + ":nnz=" + std::to_string(nnz));
-            for (int i = 0; i < sh.r; i++)
-                for (int j = 0; j < sh.c; j++)
+            c.outcome(std::to_string(m.r) + "x" + std::to_string(m.c) + ":nnz=" + std::to_string(nnz));
+            for (int i = 0; i < m.r; i++)
+                for (int j = 0; j < m.c; j++)
                     for (int v = 0; v < 3; v++)
                         check_set(S, m, i, j, v, c, "state");
             if (s % 50021 == 7)
-                c.sample("{\"phase\":\"A\",\"state\":" + jstr(istr(m)) + ",\"ops\":" + std::to_string(3 * n) + "}");
+                c.sample("{\"phase\":\"A\",\"state\":" + jstr(istr(m)) + ",\"ops\":" + std::to_string(3 * m.r * m.c) + "}");
         };
         timed_run(cs);
         states_total += cs.n;
-        closure_clean[{sh.r, sh.c}] = cs.bad.empty();
-        bound += (bound.empty() ? "A: full set() transition relation over {.,1,2}^(r*c) for " : ",") + std::to_string(sh.r) + "x" + std::to_string(sh.c);
+        for (auto sh : shapesA)
+            closure_clean[{sh.r, sh.c}] = true;
+        for (long long bad : cs.bad) {
+            long long l;
+            Shape sh = locate(bad, l);
+            closure_clean[{sh.r, sh.c}] = false;
+        }
+        bound += "A: full set() transition relation over {.,1,2}^(r*c) for";
+        for (auto sh : shapesA)
+            bound += " " + std::to_string(sh.r) + "x" + std::to_string(sh.c);
     }
 
     // ================================================================= B: real BFS by histories from the empty matrix
     if (!replaying()) {
+        std::string bfs_done;
         for (auto sh : shapesA) {
             int n = sh.r * sh.c;
             if (n > 9 && !(thorough && n <= 12))
@@ -533,8 +557,9 @@ int main(int argc, char **argv)
                                 + std::to_string(seen.size()) + " distinct (p,j,x) states at depth " + std::to_string(maxdepth) + "; expected "
                                 + std::to_string(ipow(3, n)) + " at depth " + std::to_string(n));
             R.outcomes.insert(tag + ":saturated@" + std::to_string(seen.size()));
+            bfs_done += " " + std::to_string(sh.r) + "x" + std::to_string(sh.c);
         }
-        bound += "; B: BFS saturation from the empty matrix for all shapes with <= " + std::string(thorough ? "12" : "9") + " cells";
+        bound += "; B: BFS saturation from the empty matrix for" + bfs_done;
     }
 
     // ================================================================= C: from_coo, D: set() from every from_coo result
@@ -547,7 +572,7 @@ int main(int argc, char **argv)
     if (thorough)
         coos = {{2, 2, 5, {0, 1, 2}, 3}, {2, 3, 4, {0, 1, 2}, 3}, {2, 2, 6, {1, -1}, 1}, {3, 3, 4, {0, 1, 2}, 1}, {3, 2, 4, {0, 1, -1}, 1}, {1, 4, 5, {0, 1, 2}, 2}};
     for (auto &co : coos) {
-        if (past_deadline())
+        if (!go("C:from_coo"))
             break;
         int ncell = co.r * co.c, T = ncell * (int)co.vals.size();
         std::vector<long long> base{0};
@@ -603,7 +628,7 @@ int main(int argc, char **argv)
         cs.n = base.back();
         cs.counter_names = CN;
         cs.desc = cdesc;
-        cs.crash_sig = [=](long long, const std::string &oc) { return "from_coo:" + oc; };
+        cs.crash_sig = [=](long long, const std::string &oc) { return "from_coo:" + crash_class(oc); };
         cs.body = [=](long long idx, Ctx &c) {
             IModel m;
             bool dup;
@@ -640,7 +665,7 @@ int main(int argc, char **argv)
         timed_run(cs);
         bound += "; C: from_coo every list of <= " + std::to_string(co.L) + " triples on " + std::to_string(co.r) + "x" + std::to_string(co.c) + " values "
                  + vs(co.vals);
-        if (co.depth == 0 || past_deadline())
+        if (co.depth == 0 || !go("D:coo+set"))
             continue;
         // ---- D: distinct results as BFS roots (parent; only lists already executed cleanly by the workers)
         std::vector<CSRMatrix> front;
@@ -655,7 +680,7 @@ int main(int argc, char **argv)
                 front.push_back(M);
         }
         R.counters["D:roots-" + tag] = front.size();
-        for (int d = 1; d <= co.depth && !past_deadline(); d++) {
+        for (int d = 1; d <= co.depth && go("D:coo+set-depth"); d++) {
             int nops = ncell * 3;
             CaseSet ds;
             ds.name = "D:coo+set-" + tag + "-depth" + std::to_string(d);
@@ -668,7 +693,7 @@ int main(int argc, char **argv)
                 return "state " + raw_str(S) + " (from_coo result + " + std::to_string(d - 1) + " sets) .set(" + std::to_string(op / 3 / co.c) + ","
                        + std::to_string(op / 3 % co.c) + "," + std::to_string(op % 3) + ")";
             };
-            ds.crash_sig = [=](long long, const std::string &oc) { return "set(after from_coo):" + oc; };
+            ds.crash_sig = [=](long long, const std::string &oc) { return "set(after from_coo):" + crash_class(oc); };
             ds.body = [F, nops, co](long long i, Ctx &c) {
                 const CSRMatrix &S = (*F)[i / nops];
                 int op = i % nops;
